@@ -341,3 +341,35 @@ def comp_struct(e: ast.AST) -> Optional[Tuple[str, List[Tuple[str, List[str]]]]]
     from .canon import NormText
     el = NormText(txt(e.key) + ": " + txt(e.value)) if isinstance(e, ast.DictComp) else txt(e.elt)
     return el, gens
+
+
+def seq_terms(e: ast.AST) -> List[str]:
+    """members of a list built from displays, `+`, list(...) and comprehensions, as canonical texts: a display contributes
+    each element; `list(X)` / `[*X]` contribute `each X`; a comprehension `[f(v) for v in X if c]` contributes
+    `each f($0) for X if c`.  Order is kept."""
+    out: List[str] = []
+
+    def rec(x):
+        x = strip_pre(x)
+        if isinstance(x, ast.BinOp) and isinstance(x.op, ast.Add):
+            rec(x.left)
+            rec(x.right)
+        elif isinstance(x, (ast.List, ast.Tuple)):
+            for el in x.elts:
+                if isinstance(el, ast.Starred):
+                    rec(ast.Call(func=ast.Name(id="list", ctx=ast.Load()), args=[el.value], keywords=[]))
+                else:
+                    out.append(norm(el))
+        elif isinstance(x, ast.Call) and isinstance(x.func, ast.Name) and x.func.id in ("list", "tuple", "sorted") and len(x.args) == 1 and not x.keywords:
+            inner = strip_pre(x.args[0])
+            if isinstance(inner, (ast.List, ast.Tuple, ast.ListComp, ast.GeneratorExp, ast.BinOp)):
+                rec(inner)
+            else:
+                out.append("each " + norm(inner))
+        elif isinstance(x, (ast.ListComp, ast.GeneratorExp)):
+            el, gens = comp_struct(x)
+            out.append("each " + el + "".join(f" for {it}" + "".join(f" if {c}" for c in cs) for it, cs in gens))
+        else:
+            out.append("<" + norm(x) + ">")
+    rec(e)
+    return out
